@@ -176,6 +176,13 @@ mutual
         match freezeExpr look s2 c with
         | .error e => .error e
         | .ok (c', s3) => .ok (.try_ b' p c', { s1 with tab := s3.tab })
+    | s, .switch_ sc arms =>
+      match freezeExpr look s sc with
+      | .error e => .error e
+      | .ok (sc', s1) =>
+        match freezeArms look s1 arms with
+        | .error e => .error e
+        | .ok (arms', s2) => .ok (.switch_ sc' arms', { s1 with tab := s2.tab })
     | s, .evalSrc e => .ok (.evalSrc e, s)        -- only the callee `eval` is resolved; the text is data
     | s, .freeze e =>
       match freezeExpr look s e with
@@ -228,6 +235,18 @@ mutual
         match freezeParams look s rest with
         | .error e => .error e
         | .ok (rest', s) => .ok (.mk name dflt' splat :: rest', s)
+
+  /-- switch arms: every arm clones the environment (`let mut env2 = env.clone()` inside the arm loop),
+  binds its pattern's names, freezes its body; nothing an arm binds is visible to later arms -/
+  def freezeArms (look : String → Option V) : FState V → List SwitchArm → Except FreezeErr (List SwitchArm × FState V)
+    | s, [] => .ok ([], s)
+    | s, .mk p body :: rest =>
+      match freezeExpr look { s with bound := s.bound ++ Pat.idents p } body with
+      | .error e => .error e
+      | .ok (body', s2) =>
+        match freezeArms look { s with tab := s2.tab } rest with
+        | .error e => .error e
+        | .ok (rest', s3) => .ok (.mk p body' :: rest', s3)
 
   def freezeBody (look : String → Option V) : FState V → ForBody → Except FreezeErr (ForBody × FState V)
     | s, .exec e =>
